@@ -14,7 +14,8 @@
 From Coq Require Import String NArith ZArith QArith Bool Arith List Permutation.
 From GT Require Import Base.UTree Spec.Obs Spec.ConsensusSpec Model.Reroot Model.Index Model.EdgeIndex Model.Compare Model.Consensus
      Proofs.IndexSplit Proofs.CompareTree Proofs.CompareMain Proofs.ConsensusFloat Proofs.ConsensusCount
-     Proofs.ConsensusMain Proofs.ConsensusFreq Proofs.CompareDomain.
+     Proofs.ConsensusMain Proofs.ConsensusFreq Proofs.CompareDomain Proofs.CompareBridge Proofs.ConsensusRooted.
+From GT Require Import Spec.Unrooted Proofs.Unroot Proofs.ConsensusRound Proofs.ConsensusCompat.
 Import ListNotations.
 Local Close Scope Q_scope.
 Local Open Scope string_scope.
@@ -164,3 +165,129 @@ Theorem C09_other_taxa :
     Some (Err "Trees do not have the same set of tips").
 Proof. exact consensus_other_taxa. Qed.
 Print Assumptions C09_other_taxa.
+
+(** * bridge: the counting loop over the real hash index (NewEdgeIndex(128, .75)) leaves the same
+    entries as over the association list, up to their order (C04: [ei_add_ref], [inv_new]);
+    conditional on the hash-index model returning *)
+Theorem C09_cons_counts_hm_refines :
+  forall ts kvs n,
+    collection_ok ts ->
+    cons_counts_hm ts = Some (Ok (kvs, n)) ->
+    exists a, cons_counts_assoc ts = Some (Ok (a, n)) /\ Permutation kvs a.
+Proof. exact cons_counts_hm_refines. Qed.
+Print Assumptions C09_cons_counts_hm_refines.
+
+(** * rooted inputs: the tree the loop works on (Clone + UnRoot) has exactly the bipartitions of the
+    input in the sense of the specification ([tree_has t k]: [usplits t], which merges the two
+    root branches, contains the key [k]); [input_ok t] = well formed, distinct tip names, a rooted
+    input has an inner root child, the prepared tree has pairwise distinct bipartitions *)
+Theorem C09_prep_tree_has :
+  forall t k, wf t = true -> NoDup (leaves t) -> (rooted t = true -> root_has_inner_child t = true) ->
+    tree_has (prep_input t) k = tree_has t k.
+Proof. exact prep_tree_has. Qed.
+Print Assumptions C09_prep_tree_has.
+
+Theorem C09_tree_freq_spec_gen :
+  forall s ts, Forall input_ok ts -> tree_freq s ts = freq_count ts (sside s).
+Proof. exact tree_freq_spec_gen. Qed.
+Print Assumptions C09_tree_freq_spec_gen.
+
+Theorem C09_selected_iff_freq_count_gen :
+  forall t0 r c64,
+    ok_input t0 -> dupfree (prep_input t0) -> Forall (member t0) r -> Forall input_ok (t0 :: r) ->
+    exists a, cons_counts_assoc (t0 :: r) = Some (Ok (a, Z.of_nat (length (t0 :: r)))) /\
+      forall k c l, In (k, (c, l)) a ->
+        exists tj s, In tj (t0 :: r) /\ key_of (prep_input tj) k s /\
+                     c = Z.of_nat (freq_count (t0 :: r) (sside s)) /\
+                     (In (k, (c, l)) (filter (fun kv => keep_split c64 (Z.of_nat (length (t0 :: r))) (fst (snd kv))) a)
+                      <-> keep_split c64 (Z.of_nat (length (t0 :: r))) (Z.of_nat (freq_count (t0 :: r) (sside s))) = true).
+Proof. exact selected_iff_freq_count_gen. Qed.
+Print Assumptions C09_selected_iff_freq_count_gen.
+
+(** * the frequency of a split, hence the decision of the code on it, does not depend on the order
+    of the collection, nor on the rooting or the order of the children of any input *)
+Theorem C09_freq_count_perm :
+  forall ts ts' k, Permutation ts ts' -> freq_count ts k = freq_count ts' k.
+Proof. exact freq_count_perm. Qed.
+Print Assumptions C09_freq_count_perm.
+
+Theorem C09_freq_count_tperm :
+  forall ts ts' k, Forall2 tperm ts ts' -> freq_count ts' k = freq_count ts k.
+Proof. exact freq_count_tperm. Qed.
+Print Assumptions C09_freq_count_tperm.
+
+Theorem C09_freq_count_reroot :
+  forall ts ts' k,
+    Forall2 (fun t t' => wf t = true /\ 2 <= degree t /\ NoDup (leaves t) /\ exists i, reroot t i = Ok t') ts ts' ->
+    freq_count ts' k = freq_count ts k.
+Proof. exact freq_count_reroot. Qed.
+Print Assumptions C09_freq_count_reroot.
+
+Theorem C09_selection_invariant :
+  forall c64 ts ts' k,
+    (exists ts1, Permutation ts ts1 /\ Forall2 (fun t t' => tree_has t' k = tree_has t k) ts1 ts') ->
+    keep_split c64 (Z.of_nat (length ts')) (Z.of_nat (freq_count ts' k)) =
+    keep_split c64 (Z.of_nat (length ts)) (Z.of_nat (freq_count ts k)).
+Proof. exact selection_invariant. Qed.
+Print Assumptions C09_selection_invariant.
+
+(** the hypotheses on rooted inputs are satisfiable: ((a,b),(c,d)) *)
+Example C09_rooted_input_inhabited :
+  rooted wit_rooted = true /\ ok_input wit_rooted /\ input_ok wit_rooted /\ member wit_rooted wit_rooted.
+Proof. exact rooted_input_inhabited. Qed.
+Print Assumptions C09_rooted_input_inhabited.
+
+(** * the rational model of binary64 rounding, for all positive rationals (normal range): relative
+    error at most 2^-53, monotone; hence the test of the code is exactly "frequency > threshold
+    or in every tree" whenever (denominator of the threshold) * n < 2^52 -- no grid *)
+Theorem C09_round53_error :
+  forall x : Q, (0 < x)%Q -> (Qabs.Qabs (round53 x - x) <= x * (1 # 2 ^ 53))%Q.
+Proof. exact round53_error. Qed.
+Print Assumptions C09_round53_error.
+
+Theorem C09_round53_mono :
+  forall x y : Q, (0 < x)%Q -> (x <= y)%Q -> (round53 x <= round53 y)%Q.
+Proof. exact round53_mono. Qed.
+Print Assumptions C09_round53_mono.
+
+Theorem C09_keep_split_exact :
+  forall (cutoff : Q) (n c : Z),
+    (0 < cutoff)%Q -> (cutoff <= 1)%Q -> (0 < c <= n)%Z -> (Zpos (Qden cutoff) * n < 2 ^ 52)%Z ->
+    (keep_split (round53 cutoff) n c = true <-> ((cutoff < inject_Z c / inject_Z n)%Q \/ c = n)).
+Proof. exact keep_split_exact. Qed.
+Print Assumptions C09_keep_split_exact.
+
+(** * compatibility: the precondition of the construction of the consensus tree.
+    [compatible all A B]: the sides A, B naming two bipartitions of [all] are disjoint, nested or
+    cover [all].  Two bipartitions that are each in more than half of the trees share a tree; the
+    branches of one tree are laminar; hence the splits the code keeps at a threshold >= 0.5 are
+    pairwise compatible. *)
+Theorem C09_majority_share_a_tree :
+  forall ts k1 k2,
+    length ts < 2 * freq_count ts k1 -> length ts < 2 * freq_count ts k2 ->
+    exists t, In t ts /\ tree_has t k1 = true /\ tree_has t k2 = true.
+Proof. exact majority_share_a_tree. Qed.
+Print Assumptions C09_majority_share_a_tree.
+
+Theorem C09_majority_splits_compatible :
+  forall ts all k1 k2,
+    Forall (fun t => good t /\ tipset t = all) ts ->
+    length ts < 2 * freq_count ts k1 -> length ts < 2 * freq_count ts k2 ->
+    compatible all k1 k2.
+Proof. exact majority_splits_compatible. Qed.
+Print Assumptions C09_majority_splits_compatible.
+
+Theorem C09_kept_is_majority :
+  forall (c64 : Q) (n c : Z),
+    ((1 # 2) <= c64)%Q -> (0 < n)%Z -> keep_split c64 n c = true -> (n < 2 * c)%Z.
+Proof. exact kept_is_majority. Qed.
+Print Assumptions C09_kept_is_majority.
+
+Theorem C09_kept_splits_compatible :
+  forall ts all (c64 : Q) k1 k2,
+    Forall (fun t => good t /\ tipset t = all) ts -> ts <> [] -> ((1 # 2) <= c64)%Q ->
+    keep_split c64 (Z.of_nat (length ts)) (Z.of_nat (freq_count ts k1)) = true ->
+    keep_split c64 (Z.of_nat (length ts)) (Z.of_nat (freq_count ts k2)) = true ->
+    compatible all k1 k2.
+Proof. exact kept_splits_compatible. Qed.
+Print Assumptions C09_kept_splits_compatible.
